@@ -200,7 +200,11 @@ func WrapConfirm(chain, wrapperBridger string, confirm crosschaintypes.Confirm) 
 
 // Vote submits one oracle's vote for a claim (the claim is mutated: bridger set).
 func (f *Fixture) Vote(ctx sdk.Context, chain string, oracleIdx int, claim crosschaintypes.ExternalClaim, nonce, height uint64) Result {
-	ok := f.Oracles[chain][oracleIdx]
+	return f.VoteAs(ctx, chain, f.Oracles[chain][oracleIdx], claim, nonce, height)
+}
+
+// VoteAs submits a vote with explicit oracle keys.
+func (f *Fixture) VoteAs(ctx sdk.Context, chain string, ok OracleKeys, claim crosschaintypes.ExternalClaim, nonce, height uint64) Result {
 	SetClaimMeta(claim, chain, ok.Bridger.Acc().String(), nonce, height)
 	return f.RunMsg(ctx, WrapClaim(chain, ok.Bridger.Acc().String(), claim))
 }
